@@ -639,7 +639,7 @@ func (s *Store) commit() (types.Work, error) {
 	// missed the index flush. A crash would then leave a block on the freelist
 	// that the index still names, and GC would delete live data. So only
 	// flush the blocks that are on the freelist before the index is flushed.
-	freed := s.freelist.Pending()
+	freed := s.freelist.Mark()
 
 	primaryWork, err := s.index.Primary.Flush()
 	if err != nil {
@@ -651,7 +651,7 @@ func (s *Store) commit() (types.Work, error) {
 		return 0, err
 	}
 	vhook.Point("commit.indexFlushed")
-	flWork, err := s.freelist.FlushFirst(freed)
+	flWork, err := s.freelist.FlushTo(freed)
 	if err != nil {
 		return 0, err
 	}
@@ -672,7 +672,9 @@ func (s *Store) commit() (types.Work, error) {
 }
 
 func (s *Store) outstandingWork() bool {
-	return s.index.OutstandingWork()+s.index.Primary.OutstandingWork() > 0
+	// Freed blocks count too: commit leaves those that were freed while it
+	// was running to the next flush, which may find no other work.
+	return s.index.OutstandingWork()+s.index.Primary.OutstandingWork()+s.freelist.OutstandingWork() > 0
 }
 
 // Flush writes outstanding work and buffered data to the primary, index, and
